@@ -1433,6 +1433,17 @@ class Engine:
                 raise Unsupported("range step in comprehension")
             n = z3.If(hi.z > lo.z, hi.z - lo.z, 0)
             self.assign(gen.target, Num(lo.z + i, True), sub, exits)
+        elif isinstance(gen.iter, ast.Call) and isinstance(gen.iter.func, ast.Name) and gen.iter.func.id == "zip" and not gen.iter.keywords \
+                and isinstance(gen.target, ast.Tuple) and len(gen.target.elts) == len(gen.iter.args) >= 1:
+            # [elt for a, b in zip(A, B)]: element i pairs A[i] with B[i], for i below the SHORTEST length
+            seqs = [self.eval(x, st, exits) for x in gen.iter.args]
+            if not all(isinstance(q, Seq) for q in seqs):
+                raise Unsupported("zip of %r in a comprehension" % (seqs,))
+            n = seqs[0].n
+            for q in seqs[1:]:
+                n = z3.If(q.n < n, q.n, n)
+            for tgt, q in zip(gen.target.elts, seqs):
+                self.assign(tgt, Num(z3.Select(q.arr, i), False), sub, exits)
         else:
             seq = self.eval(gen.iter, st, exits)
             if isinstance(seq, Obj):
